@@ -28,7 +28,7 @@ func init() {
 		ID:      "C04",
 		Batches: func(tier string) int { return map[string]int{"quick": 16, "thorough": 48}[tier] },
 		Run:     run,
-		Rule: "cases: generated trees of simple values (boundary int64/float64, strings with control, quote, HTML, U+2028/9, invalid UTF-8 bytes, empty containers at every depth, depth up to 8 quick / 40 thorough) and their gen twins, " +
+		Rule: "cases: generated trees of simple values (boundary int64/float64, strings with control, quote, HTML, U+2028/9, invalid UTF-8 bytes, empty containers at every depth, nesting chains of 8-40 levels on both sides of the writers' 30 prepared tabs with an array or object at any level) and their gen twins, " +
 			"each written by oj.JSON, oj.Marshal, oj.Write, oj.Writer.JSON/MustJSON/Write, pretty.JSON, pretty.WriteJSON, pretty.Writer.Encode/Marshal/Write under the option lattice " +
 			"{Tab, Sort, OmitNil, OmitEmpty, HTMLUnsafe} x Indent {0,1,2,3,8,200} x WriteLimit {1,2,3,5,8,17,64,1024} x pretty {Width 1/20/40/80/200, MaxDepth 1/2/3/9, Align}; the text must be valid per R, decode (D) to E(options, tree), " +
 			"stream byte-for-byte like the in-memory call, be deterministic and ascending under Sort, and contain no raw < > & unless HTMLUnsafe and no raw U+2028/9. " +
